@@ -225,7 +225,8 @@ def compare(ck, rule, test, carrier, cb, ob, cx, ox):
     env = [e for e in ox.events if e['kind'] == 'env-read']
     if env:
         ck.violate(rule, f'{key}:reads-ambient-environment', f'{cx.label}: the result depends on the {env[0]["what"]}: the same times give other flags on another machine')
-    muts = [e for e in ox.events if e['kind'] == 'mutation' and not str(e.get('owner', '')).startswith('module-state')]
+    # (only stores that change a value: rewriting a cell with what it already holds leaves the array the same series)
+    muts = [e for e in ox.events if e['kind'] == 'mutation' and not str(e.get('owner', '')).startswith('module-state') and e.get('changed', True)]
     if muts:
         from ..repo import unparse
         ck.violate(rule, f'{key}:input-array-modified',
